@@ -183,7 +183,7 @@ def run_cases(ck: Check, n: int):
                 if not ok:
                     ck.fail(f"{method}: grid stretched by {lam}: length {v} instead of {lam} * {base}", {**sig, "check": "covariant", "lambda": lam}, {**case, "method": method, "lambda": lam})
             # multiplying the field by a constant (positive for the droplet counter with the automatic threshold)
-            for c in ([0.01, 3.0, 250.0] if method == "droplet_detection" else [-2.0, 0.01, 250.0]):
+            for c in ([0.01, 3.0, 250.0, 1e-7, 1e9] if method == "droplet_detection" else [-2.0, 0.01, 250.0, 1e-7, -1e-9, 1e12]):
                 v = length(ScalarField(grid, c * data), method, **kw)
                 ok = (not isinstance(v, str)) and (rel_close(v, base, 1e-8) if exact else abs(2 * np.pi / v - 2 * np.pi / base) <= 1.0 * dk)
                 if not ok:
